@@ -1537,7 +1537,12 @@ func lbOffs(v ssa.Value, fn *ssa.Function, offsP *ssa.Parameter, in map[ssa.Valu
 	if offsP == nil {
 		return false
 	}
-	if v == ssa.Value(offsP) {
+	return lbBase(v, fn, offsP, in)
+}
+
+// lbBase: v >= base, where base is the offs parameter or (rule PG) the loop-head phi of the current iteration.
+func lbBase(v ssa.Value, fn *ssa.Function, offsP ssa.Value, in map[ssa.Value]bool) bool {
+	if v == offsP {
 		return true
 	}
 	if in[v] {
@@ -1575,12 +1580,14 @@ func lbOffs(v ssa.Value, fn *ssa.Function, offsP *ssa.Parameter, in map[ssa.Valu
 		gb := bufParam(cal)
 		for i, p := range cal.Params {
 			if p == gb && i+1 < len(call.Call.Args) {
-				return lbOffs(call.Call.Args[i+1], fn, offsP, in)
+				return lbBase(call.Call.Args[i+1], fn, offsP, in)
 			}
 		}
 		return false
 	}
-	if bp := bufParam(fn); bp != nil {
+	if _, isParam := offsP.(*ssa.Parameter); !isParam {
+		// relative to a loop variable there is no such precondition
+	} else if bp := bufParam(fn); bp != nil {
 		// len(buf) >= offs is the API precondition (the same one rule O1 relies on)
 		if call, ok := v.(*ssa.Call); ok {
 			if b, ok := call.Call.Value.(*ssa.Builtin); ok && b.Name() == "len" && len(call.Call.Args) == 1 && call.Call.Args[0] == ssa.Value(bp) {
@@ -1593,7 +1600,7 @@ func lbOffs(v ssa.Value, fn *ssa.Function, offsP *ssa.Parameter, in map[ssa.Valu
 	case *ssa.Phi:
 		in[x] = true
 		for _, e := range x.Edges {
-			if !lbOffs(e, fn, offsP, in) {
+			if !lbBase(e, fn, offsP, in) {
 				delete(in, x)
 				return false
 			}
@@ -1601,10 +1608,10 @@ func lbOffs(v ssa.Value, fn *ssa.Function, offsP *ssa.Parameter, in map[ssa.Valu
 		return true
 	case *ssa.BinOp:
 		if x.Op == token.ADD {
-			if lbOffs(x.X, fn, offsP, in) && nonNeg(x.Y, x.Block()) {
+			if lbBase(x.X, fn, offsP, in) && nonNeg(x.Y, x.Block()) {
 				return true
 			}
-			if lbOffs(x.Y, fn, offsP, in) && nonNeg(x.X, x.Block()) {
+			if lbBase(x.Y, fn, offsP, in) && nonNeg(x.X, x.Block()) {
 				return true
 			}
 		}
